@@ -10,7 +10,13 @@ From RB Require Import Base.Result Model.Buffer Model.Font Model.Morx Model.Morx
 Import ListNotations.
 Local Open Scope N_scope.
 
-Record mcase := mkCase { c_dir : dir; c_level : N; c_text : list (N * N); c_out : option (list (N * N)) }.
+(* what the implementation did: panic, the (gid, cluster) list, or for long outputs (length, digest) *)
+Inductive expect := EPanic | EFull (l : list (N * N)) | EDigest (len h : N).
+Record mcase := mkCase { c_dir : dir; c_level : N; c_text : list (N * N); c_out : expect }.
+
+(* mirrors harness/src/c17.rs `digest` *)
+Definition out_digest (l : list (N * N)) : N :=
+  fold_left (fun h p => (h * 1000003 + fst p * 131 + snd p + 1) mod 4294967296) l 0.
 
 Fixpoint pairs_eqb (a b : list (N * N)) : bool :=
   match a, b with
@@ -28,10 +34,12 @@ Definition case_code (f : font) (c : mcase) : N * list event * bool :=
       if has (sh_amb sh) AMB_TABLE then (2, sh_events sh, moved)
       else if has (sh_amb sh) AMB_ALLOC then (3, sh_events sh, moved)
       else match c_out c with
-           | Some o => ((if pairs_eqb (sh_glyphs sh) o then 0 else 1), sh_events sh, moved)
-           | None => (1, sh_events sh, moved)
+           | EFull o => ((if pairs_eqb (sh_glyphs sh) o then 0 else 1), sh_events sh, moved)
+           | EDigest n h => ((if (N.of_nat (length (sh_glyphs sh)) =? n) && (out_digest (sh_glyphs sh) =? h) then 0 else 1),
+                             sh_events sh, moved)
+           | EPanic => (1, sh_events sh, moved)
            end
-  | Error _ => match c_out c with None => (4, [], false) | Some _ => (1, [], false) end
+  | Error _ => match c_out c with EPanic => (4, [], false) | _ => (1, [], false) end
   end.
 
 Record acc := mkAcc { a_idx : N; a_fail : list N; a_nfail : nat; a_counts : list N (* 5 *); a_kinds : list N (* 10 *); a_moved : N }.
